@@ -9,29 +9,7 @@ HERE = os.path.dirname(os.path.dirname(os.path.abspath(__file__)))
 BASELINE_CMD = ("cd /repo && env -u STEREOMOLGRAPH_VERIF /venv/bin/python -m pytest -ra -q "
                 "-p no:cacheprovider --timeout=900 --continue-on-collection-errors")
 
-# pid -> (category, technique, text, note, design_ref)
-CHECKS = {
-    "C01": (
-        "exploration",
-        "metamorphic property-based testing (Hypothesis byte tape -> recipe; renamed / re-ordered / re-spelled variant must compare equal), recipe-level delta debugging",
-        "A graph and a variant that is the same graph by construction (bijective renaming with arbitrary ints, shuffled insertion order, every descriptor re-expressed by an independent geometric symmetry element, or the library's own relabel_atoms in both modes) must be == in both directions, is_isomorphic and reflexive, for all four classes incl. empty graphs, isolated atoms, several components, placeholders, unspecified parity, all bond roles and stereo changes. Sampling is the right level: the domain is infinite and the relation is known by construction, so no oracle search is needed and thousands of cases per run are cheap.",
-        "Trusted: vp/symmetry.py re-expression (validated exhaustively against the descriptor classes by C04) and the model's relabel. Only the never-misses direction; C02 is the converse.",
-        "DESIGN.md section 4 C01",
-    ),
-    "C04": (
-        "exploration",
-        "exhaustive enumeration of the finite descriptor domain against a geometric symmetry oracle",
-        "Every ordered pair of orderings (all 120x120 for 5-position classes, identity row x all 720/5040 plus "
-        "sampled rows for 6/7-position classes; all rows in thorough) x all parity pairs x placeholder patterns x "
-        "three id renamings is compared with symmetry groups computed from idealised 3-D figures "
-        "(distance-preserving permutations split by orientation). The domain is finite, so enumeration - not "
-        "sampling - is the right level; it decides ==, symmetry of ==, hash agreement, invert laws and the "
-        "None-parity rule for every table row.",
-        "Trusted: the idealised figures in vp/symmetry.py (positions per class docstring); itertools. "
-        "Hash agreement is not asserted for None-vs-specified parity.",
-        "DESIGN.md section 4 C04, section 3.1",
-    ),
-}
+CHECKS = json.load(open(os.path.join(HERE, 'tools', 'checks.json')))
 
 NOT_YET = "check not built yet in this session (planned, see DESIGN.md section 4)"
 
@@ -47,7 +25,8 @@ def main():
         extra_na = json.load(open(na_file))
     for pid in ids:
         if pid in CHECKS and pid not in extra_na:
-            cat, tech, text, note, ref = CHECKS[pid]
+            c = CHECKS[pid]
+            cat, tech, text, note, ref = c['category'], c['technique'], c['text'], c['note'], c['ref']
             checks.append({
                 "property_id": pid,
                 "quick_cmd": f"./check {pid} --tier quick",
